@@ -446,6 +446,14 @@ func Main(property string, build func(tier string) []Scenario) {
 		scns[i].Run(c)
 	}
 	rep.WallS = time.Since(start).Seconds()
+	if RaceOnly {
+		if rep.Stats.Extra == nil {
+			rep.Stats.Extra = map[string]int64{}
+		}
+		all, foreign := RaceCounters()
+		rep.Stats.Extra["race_reports"] = int64(all)
+		rep.Stats.Extra["race_reports_outside_library_files"] = int64(foreign)
+	}
 	if rep.Violations == nil {
 		rep.Violations = []Violation{}
 	}
